@@ -136,11 +136,15 @@ fn section_order_contract() {
 // Entry counts: the format has no tables of 2..=4 entries (1, or 1 + num_lf_groups + 1 + num_groups * num_passes >= 5).
 use jxl_oxide_common::BundleDefault;
 
-static mut STUB_PERM: [usize; 8] = [0; 8];
-static mut STUB_FAIL: bool = false;
-static mut STUB_BITS: usize = 0;
-static mut STUB_CALLS: u32 = 0;
-static mut STUB_ARGS: (u32, u32) = (0, 0);
+// Kani 0.68 pitfall (measured): a `static mut` whose initial bytes equal those of some constant elsewhere in the
+// program shares that constant's storage -- with `static mut STUB_BITS: usize = 0` the write STUB_BITS = 125 changed
+// alloc::raw_vec::ZERO_CAP, `Vec::new()` got capacity 125 and its drop failed the __rust_dealloc checks. Every static
+// below therefore has a unique non-zero initial value and is at least 8 bytes wide.
+static mut STUB_PERM: [usize; 8] = [0x7e57_0001, 0x7e57_0002, 0x7e57_0003, 0x7e57_0004, 0x7e57_0005, 0x7e57_0006, 0x7e57_0007, 0x7e57_0008];
+static mut STUB_FAIL: u64 = 0x7e57_0009;
+static mut STUB_BITS: usize = 0x7e57_000a;
+static mut STUB_CALLS: u64 = 0x7e57_000b;
+static mut STUB_ARGS: (u64, u64) = (0x7e57_000c, 0x7e57_000d);
 
 fn ok_or_prune<T: Default, E>(r: std::result::Result<T, E>) -> T {
     match r {
@@ -171,10 +175,10 @@ fn stub_read_permutation(
 ) -> jxl_coding::CodingResult<Vec<usize>> {
     let (perm, fail, bits) = unsafe {
         STUB_CALLS += 1;
-        STUB_ARGS = (size, skip);
+        STUB_ARGS = (size as u64, skip as u64);
         (STUB_PERM, STUB_FAIL, STUB_BITS)
     };
-    if fail {
+    if fail != 0 {
         return Err(jxl_coding::Error::InvalidPermutation);
     }
     ok_or_prune(bitstream.skip_bits(bits));
@@ -295,13 +299,10 @@ fn parse_contract<const N: usize, const LEN: usize, const PAD: usize>(
     let stub_bits = 8 * CONCRETE_PREFIX - 1 - CODER_HEADER_BITS + extra_bits;
     if permuted {
         let head = 1u16 | (CODER_HEADER << 1); // permuted_toc = 1, then the coder header
-        let mut k = 0;
-        while k < CONCRETE_PREFIX {
-            bytes[k] = 0;
-            k += 1;
-        }
-        bytes[0] = head as u8;
-        bytes[1] = (head >> 8) as u8;
+        let mut prefix = [0u8; CONCRETE_PREFIX];
+        prefix[0] = head as u8;
+        prefix[1] = (head >> 8) as u8;
+        bytes[..CONCRETE_PREFIX].copy_from_slice(&prefix); // memcpy, no loop to unwind
     } else {
         kani::assume(bytes[0] & 1 == 0); // permuted_toc = 0 (also enforced by stub_decoder_unreachable)
     }
@@ -320,7 +321,7 @@ fn parse_contract<const N: usize, const LEN: usize, const PAD: usize>(
     let fail: bool = kani::any();
     unsafe {
         STUB_PERM = perm;
-        STUB_FAIL = fail;
+        STUB_FAIL = fail as u64;
         STUB_BITS = stub_bits;
         STUB_CALLS = 0;
     }
@@ -352,15 +353,15 @@ fn parse_contract<const N: usize, const LEN: usize, const PAD: usize>(
     let mut bitstream = Bitstream::new(&bytes[..LEN]);
     let r = Toc::parse(&mut bitstream, &fh);
     let calls = unsafe { STUB_CALLS };
-    assert!(calls == if permuted { 1 } else { 0 }, "[C14] the permutation is read exactly when permuted_toc is set");
+    assert!(calls == if permuted { 1u64 } else { 0u64 }, "[C14] the permutation is read exactly when permuted_toc is set");
     if permuted {
-        assert!(unsafe { STUB_ARGS } == (N as u32, 0), "[C14] ReadPermutation(size = number of TOC entries, skip = 0)");
+        assert!(unsafe { STUB_ARGS } == (N as u64, 0u64), "[C14] ReadPermutation(size = number of TOC entries, skip = 0)");
     }
     assert!(r.is_ok() == spec_ok, "[C14] Toc::parse fails exactly for non-zero padding or an invalid permutation (enough data offered)");
     kani::cover!(r.is_ok());
     kani::cover!(r.is_err());
-    let Ok(mut toc) = r else { return };
-    kani::cover!(s[0] >= 4211712 && s[N - 1] < 1024);
+    let Ok(toc) = r else { return };
+    kani::cover!(s[0] >= 4211712 && (N == 1 || s[N - 1] < 1024));
     kani::cover!(!permuted || N == 1 || perm[0] != 0);
 
     assert!(bitstream.num_read_bits() == pos, "[C14] parsing stops at the byte boundary after the last TOC entry");
@@ -389,37 +390,129 @@ fn parse_contract<const N: usize, const LEN: usize, const PAD: usize>(
     }
     assert!(toc.bookmark() == base, "[C14] bookmark = offset of the first section of the bitstream = end of the TOC");
 
-    // iter_bitstream_order: exactly N items, the k-th is the k-th section of the bitstream
+    // The asserts above say: `toc` is exactly toc_model(N, permutation, toc_entries, end_of_TOC). toc_accessors_contract
+    // below proves iter_bitstream_order / adjust_offsets on every such model value (cloning the parsed Vec inside this
+    // harness exhausts CBMC's memory).
+}
+
+/// The abstract value of a parsed table: (permuted, P, s, base)  ->  the Toc that parse_contract proves Toc::parse returns.
+fn toc_model<const N: usize>(num_lf_groups: usize, num_groups: usize, permuted: bool, perm: &[usize; N], s: &[u32; N], base: usize) -> Toc {
+    let mut o = [0usize; N];
+    let mut total = 0usize;
+    let mut k = 0;
+    while k < N {
+        o[k] = total;
+        total += s[k] as usize;
+        k += 1;
+    }
+    let mut groups = [TocGroup { kind: TocGroupKind::All, offset: 0, size: 0 }; N];
+    let mut inverse = [0usize; N];
+    let mut i = 0;
+    while i < N {
+        let pi = if permuted { perm[i] } else { i };
+        groups[i] = TocGroup { kind: spec_kind(i, N, num_lf_groups, num_groups), offset: base + o[pi], size: s[pi] };
+        inverse[pi] = i;
+        i += 1;
+    }
+    Toc {
+        num_lf_groups,
+        num_groups,
+        groups: groups.to_vec(),
+        bitstream_to_original: if permuted { inverse.to_vec() } else { Vec::new() },
+        original_to_bitstream: if permuted { perm.to_vec() } else { Vec::new() },
+        total_size: total,
+    }
+}
+
+/// iter_bitstream_order / bookmark / total_byte_size / adjust_offsets on EVERY model value of N entries.
+/// `permuted` is concrete per instantiation (measured: with a symbolic flag the iterator's buffer is one of two
+/// allocations and CBMC runs out of memory even for one entry; concrete: seconds).
+fn toc_accessors_contract<const N: usize>(num_lf_groups: usize, num_groups: usize, permuted: bool) {
+    let perm: [usize; N] = kani::any();
+    let mut i = 0;
+    while i < N {
+        kani::assume(perm[i] < N);
+        let mut j = 0;
+        while j < i {
+            kani::assume(perm[j] != perm[i]);
+            j += 1;
+        }
+        i += 1;
+    }
+    let s: [u32; N] = kani::any();
+    let base: usize = kani::any();
+    kani::assume(base <= usize::MAX / 4); // a byte position inside the codestream (num_read_bits / 8, toc.rs:213)
+    let mut toc = toc_model::<N>(num_lf_groups, num_groups, permuted, &perm, &s, base);
+    let total = toc.total_size;
+    assert!(toc.total_byte_size() == total, "[C14] total_byte_size reports the sum of the TOC entries");
+    assert!(toc.bookmark() == base, "[C14] bookmark = offset of the first section in bitstream order = end of the TOC");
+
+    // iter_bitstream_order: exactly N items; the k-th is the k-th TOC entry, i.e. the section i with P(i) == k
     let mut it = toc.iter_bitstream_order();
+    let mut expect = base;
     let mut k = 0;
     while k < N {
         let item = it.next();
         assert!(item.is_some(), "[C14] iter_bitstream_order yields every section");
         let g = item.unwrap();
-        assert!(g.offset == base + o[k] && g.size == s[k], "[C14] iter_bitstream_order: k-th item is the k-th TOC entry, contiguous from the end of the TOC");
-        // its kind is the section i with permutation[i] == k
+        assert!(g.size == s[k] && g.offset == expect, "[C14] iter_bitstream_order: k-th item is the k-th TOC entry, contiguous from the end of the TOC");
         let mut i = 0;
         while i < N {
-            if p(i) == k {
-                assert!(g.kind == spec_kind(i, N, num_lf, num_groups), "[C14] iter_bitstream_order: k-th item is the section mapped to position k");
+            if (if permuted { perm[i] } else { i }) == k {
+                assert!(g.kind == spec_kind(i, N, num_lf_groups, num_groups), "[C14] iter_bitstream_order: k-th item is the section the permutation maps to position k");
             }
             i += 1;
         }
+        expect += g.size as usize;
         k += 1;
     }
     assert!(it.next().is_none(), "[C14] iter_bitstream_order yields nothing else");
+    assert!(expect == base + total, "[C14] the yielded sizes add up to total_byte_size");
     drop(it);
 
     // adjust_offsets (Frame::parse, lib.rs:120,215: global_frame_offset = byte position BEFORE the frame header <= end of TOC)
     let gfo: usize = kani::any();
     kani::assume(gfo <= base);
     toc.adjust_offsets(gfo);
+    let want = toc_model::<N>(num_lf_groups, num_groups, permuted, &perm, &s, base - gfo);
     let mut i = 0;
     while i < N {
-        assert!(toc.groups[i].offset == base + o[p(i)] - gfo && toc.groups[i].size == s[p(i)], "[C14] adjust_offsets rebases every offset and nothing else");
+        assert!(toc.groups[i].offset == want.groups[i].offset && toc.groups[i].size == want.groups[i].size && toc.groups[i].kind == want.groups[i].kind,
+            "[C14] adjust_offsets rebases every offset by global_frame_offset and changes nothing else");
+        if permuted {
+            assert!(toc.bitstream_to_original[i] == want.bitstream_to_original[i] && toc.original_to_bitstream[i] == want.original_to_bitstream[i],
+                "[C14] adjust_offsets keeps the maps");
+        }
         i += 1;
     }
-    assert!(toc.total_size == total && toc.bookmark() == base - gfo, "[C14] adjust_offsets keeps sizes, bookmark follows");
+    assert!(toc.groups.len() == N && toc.total_size == total && toc.bookmark() == base - gfo, "[C14] adjust_offsets keeps sizes; bookmark follows");
+    kani::cover!(N == 1 || !permuted || (perm[0] != 0 && gfo > 0));
+    kani::cover!(N == 1 || s[0] != s[1]);
+}
+
+#[kani::proof]
+#[kani::unwind(10)]
+fn toc_accessors_contract_1() {
+    toc_accessors_contract::<1>(1, 1, false);
+    toc_accessors_contract::<1>(1, 1, true);
+}
+
+#[kani::proof]
+#[kani::unwind(10)]
+fn toc_accessors_contract_5_plain() {
+    toc_accessors_contract::<5>(1, 2, false);
+}
+
+#[kani::proof]
+#[kani::unwind(10)]
+fn toc_accessors_contract_5_permuted() {
+    toc_accessors_contract::<5>(1, 2, true);
+}
+
+#[kani::proof]
+#[kani::unwind(10)]
+fn toc_accessors_contract_7_permuted() {
+    toc_accessors_contract::<7>(1, 2, true);
 }
 
 // ---- unpermuted tables: every byte symbolic (assumptions a, d)
